@@ -182,5 +182,38 @@ def run(ck):
     ck.require_response("W6.connect-hands-over", cpr, is_connect, True, muc_set, "mayUseConnection(true)")
     ck.require_response("W6.connect-hands-over", cpr, is_connect, True, ev_assign("ConnStateData::(anonymous struct)::readMore", E.m_const(0)), "flags.readMore = false")
 
+    ck.rule("W7 mirrored half-close in the write-completion handlers: writeClientDone (a write *to the client* finished) closes client.conn, after the length/len==0 "
+            "cases, only with Comm::IsConnOpen(server.conn) established false, and writeServerDone closes server.conn only with IsConnOpen(client.conn) false: the side "
+            "tested is always the *other* side. finishWritingAndDelete() relies on exactly this callback to close the remaining side once its pending write is done; a "
+            "handler that tests its own side keeps copying from a closed peer (assertion in comm_read)")
+    def conn_side(t):
+        t = E.strip(t)
+        while isinstance(t, dict) and t.get("k") == "call" and t.get("f", "").split("::")[-1] in ("operator->", "operator*", "getRaw"):
+            t = E.strip(t.get("o"))
+        if isinstance(t, dict) and t.get("k") == "mem" and t.get("m") == C + "conn":
+            return side(t.get("b"))
+        return None
+    nclose = 0
+    for fname, own, other in ((T + "writeClientDone", CLI, SRV), (T + "writeServerDone", SRV, CLI)):
+        f = facts.fn(fname)
+        fl7 = ck.flow(f)
+        is_open = lambda which: E.M(lambda t, which=which: E.strip(t).get("k") == "call" and E.strip(t).get("f") == "Comm::IsConnOpen" and conn_side(E.strip(t)["a"][0]) == which, "IsConnOpen(%s.conn)" % which.split("::")[-1])
+        for st in fl7.find(lambda ev: ev.get("e") == "call" and E.strip(ev["x"]).get("f") == "Comm::Connection::close"):
+            closed = conn_side(E.strip(st.ev["x"]).get("o"))
+            if closed is None:
+                continue
+            nclose += 1
+            lenp = f.params[1]["d"] if len(f.params) > 1 else None
+            eof_case = lenp and st.has(E.m_is_ref(lenp), False)
+            if closed != own:
+                ck.violation("W7.close-own-side-when-other-gone", "W7|%s|closes-other-side" % fname, st.where(), "%s closes %s" % (fname, closed))
+            elif eof_case or st.has(is_open(other), False):
+                ck.ok("W7.close-own-side-when-other-gone", st.where(), "%s closes its own side on EOF or with the other side established gone" % fname.split("::")[-1])
+            else:
+                ck.violation("W7.close-own-side-when-other-gone", "W7|%s|wrong-side-tested" % fname, st.where(),
+                             "%s closes %s.conn without IsConnOpen(%s.conn) established false (facts: %s): when the other side is gone this handler keeps relaying"
+                             % (fname.split("::")[-1], own.split("::")[-1], other.split("::")[-1], ", ".join(st.fact_keys())[:160]), fl7.witness(st))
+    ck.need(nclose >= 4, "C06: expected the four close() sites of writeClientDone/writeServerDone, found %d" % nclose)
+
     ck.assume("payload equality and delivery under arbitrary segmentation are not decided; Comm::Write/comm_read deliver what they are given; "
               "delay pools' bytesWanted() <= its upper bound; TLS-bumped and pre-read (preReadClientData/ServerData) byte accounting is only checked through W1/W4")
